@@ -227,21 +227,18 @@ Section Run.
     change (seg_blk x :: map seg_blk suf) with (map seg_blk (x :: suf)). rewrite El, map_app. cbn [map]. rewrite Ehd. reflexivity.
   Qed.
 
-  (* the consumer that holds the file blocks Dpre receives the burst: Rel is established *)
-  Lemma join_rel s V n evs Dpre bn :
-    VState U first kept s V -> blocks_from_num s n = BOk evs ->
+  (* the consumer that holds the file blocks Dpre receives a burst bn :: sufb that ends with the head *)
+  Lemma join_rel_core V evs Dpre bn sufb l hd :
+    V <> [] -> chainU U V -> hd_error V = Some hd ->
+    map eblk evs = bn :: sufb -> Forall (fun e => matches_new (estep e) = true) evs ->
+    Forall (fun y => In y U) (bn :: sufb) -> lnk (bid bn) sufb -> bn :: sufb = l ++ [hd] ->
     (exists x, lnk x (Dpre ++ [bn])) -> Forall (fun y => In y U) Dpre ->
-    (forall hd sg x, last_sent s = Some hd -> complete_segment (db s) (bref hd) = Some (sg, true) -> In x sg ->
-       bnum (seg_blk x) = n -> seg_blk x = bn) ->
     (forall z r, Dpre ++ [bn] = z :: r -> bnum z <= start) ->
     exists J1, sfold (rev Dpre) evs = Some J1 /\ Rel U start V J1.
   Proof.
-    intros HV Hb [x0 HlD] HDU Hsame Hbot.
-    destruct (burst_shape s V n evs HV Hb) as (hd & sg & x & suf & l & Hls & Hhd & Eseg & Hxin & Hnx & Hmap & Hnew & HbU & Hlsuf & Hlast).
-    pose proof (Hsame hd sg x Hls Eseg Hxin Hnx) as Ex. rewrite Ex in *.
-    destruct (vstate_facts U first kept U_id U_uniq U_up s V HV) as (HVne & HcV & _).
-    assert (Hlall : lnk x0 (Dpre ++ bn :: map seg_blk suf)).
-    { change (bn :: map seg_blk suf) with ([bn] ++ map seg_blk suf). rewrite app_assoc.
+    intros HVne HcV Hhd Hmap Hnew HbU Hlsuf Hlast [x0 HlD] HDU Hbot.
+    assert (Hlall : lnk x0 (Dpre ++ bn :: sufb)).
+    { change (bn :: sufb) with ([bn] ++ sufb). rewrite app_assoc.
       apply linked_app_iff. split; [exact HlD|]. rewrite tip_snoc. exact Hlsuf. }
     exists (rev (map eblk evs) ++ rev Dpre). split.
     - apply sfold_pushes; [exact Hnew|]. rewrite Hmap.
@@ -249,15 +246,13 @@ Section Run.
       + exists (bparent bn). cbn [lnk]. split; [reflexivity | exact Hlsuf].
       + assert (ED : Dpre = rev r ++ [top]).
         { rewrite <- (rev_involutive Dpre), Er. reflexivity. }
-        rewrite ED, <- app_assoc in HlD. cbn [app] in HlD.
         cbn [lnk]. split; [|exact Hlsuf].
-        assert (H2 : lnk x0 ((rev r ++ [top]) ++ [bn])) by (rewrite <- app_assoc; exact HlD).
-        pose proof (linked_mid _ _ _ _ H2) as Hp. rewrite tip_snoc in Hp. exact Hp.
+        rewrite ED in HlD. pose proof (linked_mid _ _ _ _ HlD) as Hp. rewrite tip_snoc in Hp. exact Hp.
     - rewrite Hmap. split; [exact HVne|]. split; [exact HcV|]. left.
-      assert (EJ : rev (bn :: map seg_blk suf) ++ rev Dpre = rev (Dpre ++ bn :: map seg_blk suf)).
+      assert (EJ : rev (bn :: sufb) ++ rev Dpre = rev (Dpre ++ bn :: sufb)).
       { rewrite rev_app_distr. reflexivity. }
       rewrite EJ.
-      assert (Etop : rev (Dpre ++ bn :: map seg_blk suf) = hd :: rev (Dpre ++ l)).
+      assert (Etop : rev (Dpre ++ bn :: sufb) = hd :: rev (Dpre ++ l)).
       { rewrite Hlast, app_assoc, rev_app_distr. reflexivity. }
       split; [rewrite Etop; discriminate|]. split; [rewrite Etop, Hhd; reflexivity|]. split.
       + split.
@@ -265,7 +260,120 @@ Section Run.
           apply in_app_or in Hy as [Hy|Hy]; [apply HDU | apply HbU]; exact Hy.
         * exists x0. rewrite rev_involutive. exact Hlall.
       + destruct (Dpre ++ [bn]) as [|z r] eqn:Ez; [destruct Dpre; discriminate|].
-        exists (rev (r ++ map seg_blk suf)), z. split; [|apply (Hbot z r eq_refl)].
-        change (bn :: map seg_blk suf) with ([bn] ++ map seg_blk suf). rewrite app_assoc, Ez. cbn [app rev]. reflexivity.
+        exists (rev (r ++ sufb)), z. split; [|apply (Hbot z r eq_refl)].
+        change (bn :: sufb) with ([bn] ++ sufb). rewrite app_assoc, Ez. cbn [app rev]. reflexivity.
+  Qed.
+
+  (* ---------------------------------------------------------------- the file phase *)
+
+  Variable merged : list block.
+  Hypothesis Hmode : j_mode c = 0.
+  Hypothesis Hmerged_U : forall b, In b merged -> In b U.
+
+  Lemma join_mode0 w lowest e burst : join_try c w lowest e = Some burst ->
+    blocks_from_num (h_f (w_hub w)) (bnum (eblk e)) = BOk burst /\ h_ready (w_hub w) = true.
+  Proof.
+    unfold join_try. rewrite Hmode. cbn [N.eqb].
+    destruct ((lowest <=? bnum (eblk e)) && matches_new (estep e)); [|discriminate].
+    destruct (blocks_from_num (h_f (w_hub w)) (bnum (eblk e))) as [evs| | |]; try discriminate.
+    destruct (h_ready (w_hub w)); [|discriminate]. intros H. injection H as <-. auto.
+  Qed.
+
+  Lemma file_run fuel : forall D' Dpre w lowest count ps,
+    WOK w -> eventual_tip c w canon -> files_agree c w merged ->
+    (exists x, lnk x (Dpre ++ D')) -> (forall b, In b (Dpre ++ D') -> In b merged) ->
+    (forall z r, Dpre ++ D' = z :: r -> bnum z <= start) ->
+    let res := file_phase fuel c w lowest (map fev D') JNil count ps (map fev Dpre) in
+    exists st, sfold [] (fst res) = Some st /\
+      (snd res = JNil -> rev st = Dpre ++ D' \/ from_num start (rev st) = from_num start canon).
+  Proof.
+    induction D' as [|bn D' IH]; intros Dpre w lowest count ps HW Htip Hagr [x0 Hl] Hin Hbot res.
+    - unfold res. cbn [map file_phase fst snd]. exists (rev Dpre ++ []). split.
+      + rewrite <- (map_eblk_fev Dpre) at 2. apply sfold_pushes; [apply fev_new|].
+        rewrite map_eblk_fev. exists x0. rewrite app_nil_r in Hl. exact Hl.
+      + intros _. left. rewrite !app_nil_r, rev_involutive. reflexivity.
+    - assert (HoutJ : sfold [] (map fev Dpre) = Some (rev Dpre)).
+      { rewrite <- (app_nil_r (rev Dpre)). rewrite <- (map_eblk_fev Dpre) at 2. apply sfold_pushes; [apply fev_new|].
+        rewrite map_eblk_fev. exists x0. eapply linked_prefix. exact Hl. }
+      assert (HlD : lnk x0 (Dpre ++ [bn])).
+      { change (bn :: D') with ([bn] ++ D') in Hl. rewrite app_assoc in Hl. eapply linked_prefix. exact Hl. }
+      assert (HDU : Forall (fun y => In y U) Dpre).
+      { apply Forall_forall. intros y Hy. apply Hmerged_U. apply Hin. apply in_or_app. left. exact Hy. }
+      assert (Hbn : In bn merged) by (apply Hin; apply in_or_app; right; left; reflexivity).
+      unfold res. cbn [map]. rewrite file_phase_cons.
+      destruct (join_try c w lowest (fev bn)) as [burst|] eqn:Ej.
+      + (* the join *)
+        destruct (join_mode0 w lowest (fev bn) burst Ej) as [Hb Hrd]. cbn [eblk file_event] in Hb.
+        destruct HW as [Hok Hrest].
+        destruct (vstate_of_hub U first kept U_id U_uniq U_up D_decl (w_hub w) Hok Hrd) as [V HV].
+        destruct (burst_shape (h_f (w_hub w)) V (bnum bn) burst HV Hb)
+          as (hd & sg & x & suf & l & Hls & Hhd & Eseg & Hxin & Hnx & Hmap & Hnew & HbU & Hlsuf & Hlast).
+        assert (Ex : seg_blk x = bn) by (exact (Hagr 0%nat hd sg x bn Hrd Hls Eseg Hxin Hbn Hnx)).
+        rewrite Ex in *.
+        destruct (vstate_facts U first kept U_id U_uniq U_up (h_f (w_hub w)) V HV) as (HVne & HcV & _).
+        assert (Hbot' : forall z r, Dpre ++ [bn] = z :: r -> bnum z <= start).
+        { intros z r Ez. apply (Hbot z (r ++ D')). change (bn :: D') with ([bn] ++ D'). rewrite app_assoc, Ez. reflexivity. }
+        destruct (join_rel_core V burst Dpre bn (map seg_blk suf) l hd HVne HcV Hhd Hmap Hnew HbU Hlsuf Hlast
+                    (ex_intro _ x0 HlD) HDU Hbot') as (J1 & HJ1 & HR).
+        destruct (live_run fuel w V burst count ps (map fev Dpre) (rev Dpre) J1 (conj Hrd (conj HV Hrest)) Htip HoutJ HJ1 HR)
+          as (st & Hst & Hfin).
+        exists st. split; [exact Hst|]. intros Hn. right. exact (Hfin Hn).
+      + (* delivered from the file *)
+        rewrite chain_default. cbn [nu_ev file_event estep matches_new orb].
+        destruct (pauses_after (count + 1) ps w) as [m Em].
+        destruct (apply_pauses c (count + 1) ps w) as [[ps' w'] evs'] eqn:Ep. cbn [fst snd] in Em. subst w'.
+        assert (Eout : map fev Dpre ++ [fev bn] = map fev (Dpre ++ [bn])) by (rewrite map_app; reflexivity).
+        rewrite Eout.
+        assert (EDD : (Dpre ++ [bn]) ++ D' = Dpre ++ bn :: D') by (rewrite <- app_assoc; reflexivity).
+        specialize (IH (Dpre ++ [bn]) (world_after c m w)
+                      (if (lowest <=? bnum (eblk (fev bn))) && matches_new (estep (fev bn)) then hub_lowest (w_hub w) else lowest)
+                      (count + 1) ps' (wok_after m w HW) (tip_after w m Htip) (agree_after w m merged Hagr)).
+        rewrite EDD in IH. exact (IH (ex_intro _ x0 Hl) Hin Hbot).
+  Qed.
+
+  (* ---------------------------------------------------------------- Stream.Run from a block number *)
+
+  Lemma stream_num w ps merged_end forked :
+    run_start c w = start ->
+    WOK w -> eventual_tip c w canon -> files_agree c w merged ->
+    let D := file_delivery merged start file_bound (j_bundle c) in
+    (exists x, lnk x D) -> (forall z r, D = z :: r -> bnum z <= start) ->
+    let res := stream_run c w ps merged_end merged forked in
+    exists st, sfold [] (fst res) = Some st /\
+      (snd res = JNil -> rev st = D \/ from_num start (rev st) = from_num start canon).
+  Proof.
+    intros Hstart HW Htip Hagr D HlD HbotD res.
+    assert (HinD : forall b, In b ([] ++ D) -> In b merged).
+    { intros b Hb. cbn [app] in Hb. unfold D, file_delivery in Hb. apply filter_In in Hb as [Hb _]. exact Hb. }
+    assert (Hfile : forall fuel lowest,
+              exists st, sfold [] (fst (file_phase fuel c w lowest (map fev D) JNil 0 ps [])) = Some st /\
+                (snd (file_phase fuel c w lowest (map fev D) JNil 0 ps []) = JNil ->
+                 rev st = D \/ from_num start (rev st) = from_num start canon)).
+    { intros fuel lowest. exact (file_run fuel D [] w lowest 0 ps HW Htip Hagr HlD HinD HbotD). }
+    unfold res, stream_run. cbv zeta.
+    change (abs_start (j_first c) (j_start c) match hub_head (w_hub w) with Some (r, _) => rn r | None => 0 end)
+      with (run_start c w).
+    rewrite Hstart, Hstop, Hfilter, Hmode. cbn [N.eqb negb andb].
+    unfold live_try. rewrite Hmode. cbn [N.eqb].
+    destruct (h_ready (w_hub w)) eqn:Hrd; cbn [negb].
+    - destruct (blocks_from_num (h_f (w_hub w)) start) as [burst| | |] eqn:Hb.
+      + (* live from the start *)
+        destruct HW as [Hok Hrest].
+        destruct (vstate_of_hub U first kept U_id U_uniq U_up D_decl (w_hub w) Hok Hrd) as [V HV].
+        destruct (burst_shape (h_f (w_hub w)) V start burst HV Hb)
+          as (hd & sg & x & suf & l & Hls & Hhd & Eseg & Hxin & Hnx & Hmap & Hnew & HbU & Hlsuf & Hlast).
+        destruct (vstate_facts U first kept U_id U_uniq U_up (h_f (w_hub w)) V HV) as (HVne & HcV & _).
+        assert (Hl1 : exists x1, lnk x1 ([] ++ [seg_blk x])) by (exists (bparent (seg_blk x)); cbn; auto).
+        assert (Hbot1 : forall z r, [] ++ [seg_blk x] = z :: r -> bnum z <= start).
+        { intros z r Ez. cbn [app] in Ez. injection Ez as <- _. lia. }
+        destruct (join_rel_core V burst [] (seg_blk x) (map seg_blk suf) l hd HVne HcV Hhd Hmap Hnew HbU Hlsuf Hlast
+                    Hl1 (Forall_nil _) Hbot1) as (J1 & HJ1 & HR).
+        pose proof (fun f => live_run f w V burst 0 ps [] [] J1 (conj Hrd (conj HV Hrest)) Htip eq_refl HJ1 HR) as HL.
+        match goal with |- context [live_phase ?f _ _ _ _ _ _] => destruct (HL f) as (st & Hst & Hfin) end.
+        exists st. split; [exact Hst|]. intros Hn. right. exact (Hfin Hn).
+      + apply Hfile.
+      + exists []. split; [reflexivity | discriminate].
+      + exists []. split; [reflexivity | discriminate].
+    - apply Hfile.
   Qed.
 End Run.
